@@ -35,6 +35,7 @@ uint64_t Rng::next() {
 // ------------------------------------------------------------------ memory
 char *arena;
 size_t arena_size = (size_t)192 << 20;
+size_t aux_bytes = 0;
 static const size_t OBJ_ZONE = (size_t)8 << 20; // first 8 MiB: objects under test, nodes
 
 struct Cell { uint32_t w, r; }; // per byte; epoch = clk<<5 | atomic<<4 | task ; r: bit31 => vc pool index
@@ -464,7 +465,11 @@ void *obj_alloc(size_t n, size_t align) {
 // ------------------------------------------------------------------ plain hooks
 static inline void on_plain(const void *addr, size_t n, bool write) {
 	Run *r = R;
-	if (!r || !r->active || !in_arena(addr)) return;
+	if (!r || !r->active) return;
+	if (!in_arena(addr)) {
+		if (in_aux(addr)) { r->eng->on_access(r->cur, addr, n, write, false); r->hash = mix(r->hash, (off(addr) << 8) ^ (n << 2) ^ (write ? 3 : 1) ^ ((uint64_t)r->cur << 56)); }
+		return;
+	}
 	sched_point(K_PLAIN);
 	r->eng->on_access(r->cur, addr, n, write, false);
 	race_access(addr, n, write, false);
@@ -1068,6 +1073,7 @@ void *simrt_memcpy(void *d, const void *s, size_t n) {
 		if (in_arena(d)) { r->eng->on_access(r->cur, d, n, true, false); race_access(d, n, true, false); }
 		r->hash = mix(r->hash, 0xF100 ^ (n << 16));
 	}
+	if (r && r->active && n) { if (in_aux(s)) r->eng->on_access(r->cur, s, n, false, false); if (in_aux(d)) r->eng->on_access(r->cur, d, n, true, false); }
 	return memcpy(d, s, n);
 }
 void *simrt_memmove(void *d, const void *s, size_t n) {
@@ -1077,6 +1083,7 @@ void *simrt_memmove(void *d, const void *s, size_t n) {
 		if (in_arena(s)) { r->eng->on_access(r->cur, s, n, false, false); race_access(s, n, false, false); }
 		if (in_arena(d)) { r->eng->on_access(r->cur, d, n, true, false); race_access(d, n, true, false); }
 	}
+	if (r && r->active && n) { if (in_aux(s)) r->eng->on_access(r->cur, s, n, false, false); if (in_aux(d)) r->eng->on_access(r->cur, d, n, true, false); }
 	return memmove(d, s, n);
 }
 void *simrt_memset(void *d, int c, size_t n) {
@@ -1085,6 +1092,7 @@ void *simrt_memset(void *d, int c, size_t n) {
 		sched_point(K_PLAIN);
 		r->eng->on_access(r->cur, d, n, true, false); race_access(d, n, true, false);
 	}
+	if (r && r->active && n && in_aux(d)) r->eng->on_access(r->cur, d, n, true, false);
 	return memset(d, c, n);
 }
 
